@@ -116,6 +116,8 @@ func c06Type(r *gen.Rand) *schema.Struct {
 		func() *schema.Type { return schema.ListOf(schema.StructOf(scalarHolder(), r.Bool())) },
 		func() *schema.Type { return schema.MapOf(schema.Scalar(schema.I32), schema.StructOf(scalarHolder(), r.Bool())) },
 		func() *schema.Type { return schema.StructOf(scalarHolder(), false) },
+		func() *schema.Type { return schema.StructOf(scalarHolder(), true) },
+		func() *schema.Type { return schema.StructOf(scalarHolder(), true) },
 	)
 	n := 3 + r.Intn(8)
 	for i := 0; i < n; i++ {
@@ -178,7 +180,47 @@ func snapshotObj(s *schema.Struct, v reflect.Value, idx int) *liveObj {
 	}
 	o.image = mon.Image(o.pieces)
 	o.canon = ref.Canon(s, v.Elem(), ref.CmpOpts{})
+	// the monitor itself must not keep any piece alive: what the decoder created has to be
+	// reachable (for the collector) through the decoded object alone
+	for i := range o.pieces {
+		o.pieces[i].Ptr = nil
+	}
 	return o
+}
+
+// verifyLive walks the object again - through its own pointers - and compares what it
+// finds with the snapshot: same pieces at the same addresses with the same bytes.
+func verifyLive(l *liveObj) string {
+	var cur []mon.Piece
+	mon.Walk(l.v.Elem(), "", &cur)
+	cur = mon.DropStatic(cur)
+	// (maps are walked in Go's random iteration order: pieces are matched by address)
+	at := make(map[uintptr]int, len(l.pieces))
+	n0 := 0
+	for i, p := range l.pieces {
+		if p.Size > 0 {
+			at[p.Addr] = i
+			n0++
+		}
+	}
+	n1 := 0
+	for _, p := range cur {
+		if p.Size == 0 {
+			continue
+		}
+		n1++
+		i, ok := at[p.Addr]
+		if !ok || l.pieces[i].Size != p.Size {
+			return fmt.Sprintf("%s %s [%#x,+%d) was not part of the object right after decoding", p.Kind, p.Path, p.Addr, p.Size)
+		}
+		if d := mon.CompareImage([]mon.Piece{p}, [][]byte{l.image[i]}); d != "" {
+			return d
+		}
+	}
+	if n0 != n1 {
+		return fmt.Sprintf("the object now has %d pieces, it had %d right after decoding", n1, n0)
+	}
+	return ""
 }
 
 func runC06(c *harness.Ctx, idx int) {
@@ -249,7 +291,7 @@ func runC06(c *harness.Ctx, idx int) {
 		keep.Elem().Set(dst.Elem()) // shallow copy: same pointees, as an application holding the old result
 		o.v = keep
 		if r2 := fDecode(m2, dst.Interface()); !r2.panicked() && r2.err == nil {
-			if d := mon.CompareImage(o.pieces, o.image); d != "" {
+			if d := verifyLive(o); d != "" {
 				c.Violation("memory-changed", "C06/reused-destination-overwrites-old-result", "decoding a second message into the same destination changed memory created by the first decode: %s", d)
 			}
 		}
@@ -282,7 +324,7 @@ func runC06(c *harness.Ctx, idx int) {
 	runtime.GC()
 	// garbage of the size classes the decoder uses, filled with a pattern
 	c06Sink = c06Sink[:0]
-	for _, n := range []int{8, 16, 24, 32, 48, 64, 96, 128, 256, 512, 1024, 2048, 2048, 2048, 4096} {
+	for _, n := range []int{8, 16, 24, 32, 48, 64, 96, 128, 208, 256, 320, 512, 1024, 1536, 2048, 2048, 2048, 2688, 4096} {
 		for rep := 0; rep < 6; rep++ {
 			g := make([]byte, n)
 			for i := range g {
@@ -298,7 +340,7 @@ func runC06(c *harness.Ctx, idx int) {
 			continue
 		}
 		checked++
-		if d := mon.CompareImage(l.pieces, l.image); d != "" {
+		if d := verifyLive(l); d != "" {
 			c.Violation("memory-changed", "C06/memory-changed", "memory of the object decoded in case %d changed after buffer overwrite / further decodes / GC: %s (type %s)", l.idx, d, l.s.Describe())
 			continue
 		}
